@@ -35,13 +35,22 @@ def atomicqueue : ModelEntries :=
 def cfgPool1Wait2 : ThreadPool.Config :=
   ⟨1, 1, [[.waitAll, .dtor], [], [.enq 0, .waitRan 0], [.enq 1, .waitRan 1]], true⟩
 
+/-- "stop was requested on the receivers' token before anything was scheduled": the same protocol
+    with every completion delivered as set_done — the observable `item<i>.value` is renamed. -/
+def doneObs {lbl : Type} (f : lbl → Option String) : lbl → Option String :=
+  fun l => (f l).map (fun s => s.replace ".value" ".done")
+
 def threadpool : ModelEntries :=
   ("threadpool", (ThreadPool.configs ++ [("pool_1_wait2", cfgPool1Wait2)]).map (fun (n, c) =>
-      (n, mkEntryS (ThreadPool.sys c) ThreadPool.obsOf (ThreadPool.final c) (ThreadPool.safe c))))
+      (n, mkEntryS (ThreadPool.sys c) ThreadPool.obsOf (ThreadPool.final c) (ThreadPool.safe c))) ++
+    [("pool_tokfirst", mkEntryS (ThreadPool.sys ThreadPool.cfgPool2b) (doneObs ThreadPool.obsOf)
+        (ThreadPool.final ThreadPool.cfgPool2b) (ThreadPool.safe ThreadPool.cfgPool2b))])
 
 def newthread : ModelEntries :=
   ("newthread", NewThread.configs.map (fun (n, c) =>
-      (n, mkEntryS (NewThread.sys c) NewThread.obsOf (NewThread.final c) (NewThread.safe c))))
+      (n, mkEntryS (NewThread.sys c) NewThread.obsOf (NewThread.final c) (NewThread.safe c))) ++
+    [("nt_tokfirst", mkEntryS (NewThread.sys NewThread.cfgNt2) (doneObs NewThread.obsOf)
+        (NewThread.final NewThread.cfgNt2) (NewThread.safe NewThread.cfgNt2))])
 
 /-- sequential model: `ask trampoline run | <maxDepth> | <tree>` answers with the event log -/
 def trampoline : ModelEntries :=
